@@ -16,7 +16,7 @@ from thrift.transport import TTransport
 from thrift.TRecursive import fix_spec
 
 from . import SimService
-from .SimService import Pair, Oops  # noqa: F401  (types used by callers of this interface)
+from .SimService import Pair, Oops, Denied  # noqa: F401  (types used by callers of this interface)
 
 all_structs = []
 
